@@ -238,3 +238,96 @@ theorem read_write_number (n k : Nat) (h : n < 2 ^ k) : RS (fun j => n / 2 ^ j %
 theorem shiftRight_eq_zero_iff (n k : Nat) : n >>> k = 0 ↔ n < 2 ^ k := by
   rw [Nat.shiftRight_eq_div_pow, Nat.div_eq_zero_iff]
   simp [Nat.pos_iff_ne_zero.mp (Nat.two_pow_pos k)]
+
+-- ---------------- list views used by RemoveRedundantGates / connect_circuit / order_list proofs ----------------
+-- the order-preserving filter view: positions of the elements satisfying p (python: [i for i, y in enumerate(l, o) if p(y)])
+def posP {α : Type} (p : α → Bool) : Nat → List α → List Nat
+  | _, [] => []
+  | o, a :: l => (if p a then [o] else []) ++ posP p (o + 1) l
+
+theorem posP_mem {α : Type} (p : α → Bool) (o : Nat) (l : List α) (i : Nat) :
+    i ∈ posP p o l ↔ ∃ j, ∃ (hj : j < l.length), i = o + j ∧ p l[j] = true := by
+  induction l generalizing o with
+  | nil => simp [posP]
+  | cons a l ih =>
+    simp only [posP, List.mem_append, ih]
+    constructor
+    · rintro (h | ⟨j, hj, e, hx⟩)
+      · by_cases hpa : p a = true
+        · simp [hpa] at h
+          exact ⟨0, by simp, by omega, by simpa using hpa⟩
+        · simp [hpa] at h
+      · exact ⟨j + 1, by simp; omega, by omega, by simpa using hx⟩
+    · rintro ⟨j, hj, e, hx⟩
+      cases j with
+      | zero =>
+        left
+        simp only [List.getElem_cons_zero] at hx
+        simp [hx, e]
+      | succ j =>
+        right
+        simp only [List.length_cons] at hj
+        exact ⟨j, by omega, by omega, by simpa using hx⟩
+
+theorem posP_ge {α : Type} (p : α → Bool) (o : Nat) (l : List α) (i : Nat) (h : i ∈ posP p o l) : o ≤ i := by
+  obtain ⟨j, _, e, _⟩ := (posP_mem p o l i).mp h
+  omega
+
+-- the embedding is strictly increasing
+theorem posP_sorted {α : Type} (p : α → Bool) (o : Nat) (l : List α) : (posP p o l).Pairwise (· < ·) := by
+  induction l generalizing o with
+  | nil => simp [posP]
+  | cons a l ih =>
+    simp only [posP]
+    rw [List.pairwise_append]
+    refine ⟨?_, ih (o + 1), ?_⟩
+    · by_cases h : p a = true <;> simp [h]
+    · intro x hx q hq
+      have := posP_ge p (o + 1) l q hq
+      by_cases h : p a = true
+      · simp [h] at hx; omega
+      · simp [h] at hx
+
+-- reading the list at the embedded positions gives exactly the filtered list (same length, same elements, same order)
+theorem posP_filter {α : Type} (p : α → Bool) (o : Nat) (l : List α) :
+    (posP p o l).map (fun i => l[i - o]?) = (l.filter p).map some := by
+  induction l generalizing o with
+  | nil => simp [posP]
+  | cons a l ih =>
+    simp only [posP, List.map_append, List.filter_cons]
+    have hrest : (posP p (o + 1) l).map (fun i => (a :: l)[i - o]?) = (posP p (o + 1) l).map (fun i => l[i - (o + 1)]?) := by
+      apply List.map_congr_left
+      intro i hi
+      have := posP_ge p (o + 1) l i hi
+      have e : i - o = (i - (o + 1)) + 1 := by omega
+      rw [e, List.getElem?_cons_succ]
+    rw [hrest, ih (o + 1)]
+    by_cases h : p a = true <;> simp [h]
+
+-- a filter whose predicate holds everywhere is the identity
+theorem filter_all {α : Type} (p : α → Bool) (l : List α) (h : ∀ a ∈ l, p a = true) : l.filter p = l :=
+  List.filter_eq_self.mpr h
+
+-- concatenation: counts add up, positions of the first list then of the second
+theorem count_append' {α : Type} [DecidableEq α] (a b : List α) (x : α) : (a ++ b).count x = a.count x + b.count x :=
+  List.count_append
+
+-- a label counted at least twice occurs at two different positions
+theorem two_le_count_positions {α : Type} [DecidableEq α] (l : List α) (x : α) (h : 2 ≤ l.count x) :
+    ∃ i j, ∃ (hi : i < l.length) (hj : j < l.length), i < j ∧ l[i] = x ∧ l[j] = x := by
+  induction l with
+  | nil => simp at h
+  | cons a l ih =>
+    by_cases hax : a = x
+    · subst hax
+      have h1 : 1 ≤ l.count a := by
+        rw [List.count_cons_self] at h
+        omega
+      have hm : a ∈ l := List.count_pos_iff.mp (by omega)
+      obtain ⟨j, hj, e⟩ := List.getElem_of_mem hm
+      exact ⟨0, j + 1, by simp, by simp; omega, by omega, by simp, by simpa using e⟩
+    · have h2 : 2 ≤ l.count x := by
+        rw [List.count_cons_of_ne (by simpa [eq_comm] using hax)] at h
+        exact h
+      obtain ⟨i, j, hi, hj, hij, ei, ej⟩ := ih h2
+      exact ⟨i + 1, j + 1, by simp; omega, by simp; omega, by omega, by simpa using ei, by simpa using ej⟩
